@@ -173,6 +173,9 @@ def run(ctx):
         if not rep:
             continue
         c = rep.get("counters") or {}
+        if c.get("replay_not_applicable") and not ctx.violations:
+            ctx.broken("forced replay on %s not applicable: the implementation no longer reads ctx.Err() exactly once after each "
+                       "dequeue (the harness must be adapted to the new structure)" % name)
         total = sum(v for k, v in c.items() if k.startswith("behaviour_"))
         lost = c.get("behaviour_desync", 0)
         ctx.note("%s forced replay: %d behaviours, %s; %d steps compared" % (
